@@ -170,7 +170,7 @@ func streamC02(c *Ctx) {
 	twins := []string{"t0", "t1", "t2", "measurements3"}
 	for _, be := range backendsAll {
 		im := NewImpl(be, c.Scratch)
-		if !c02Cells(c, dr, im, be, !c.Quick()) || !sameFieldCells(c, dr, im, be) {
+		if !c02Cells(c, dr, im, be, !c.Quick()) || !sameFieldCells(c, dr, im, be) || !dropOneOfSeveralIndexes(c, dr, be) {
 			im.Destroy()
 			return
 		}
